@@ -14,6 +14,7 @@ ENTRY = dict(
                   "c12_dag_rfr_semantics", "c12_dag_rfr_dropped_iff", "c12_dag_rfr_fix_semantics",
                   "c12_dag_rfr_fix_is_fixed_point", "c12_dag_equiv_final", "c12_dag_equiv_consolidate",
                   "c12_dag_equiv_consolidate_rest",
+                  "c12_sim_consolidate", "c12_sim_consolidate_any", "c12_sim_zero", "c12_sim_born_law",
                   "c12_site_only_resets", "c12_site_semantics_observed", "c12_site_semantics_placeholder",
                   "c12_facts_pipeline", "c12_facts_scans", "c12_facts_dag", "c12_facts_sites"],
         allowed_axioms=[],
@@ -32,14 +33,25 @@ ENTRY = dict(
                    "10-letter alphabet (plus its symmetric 13-letter completion one length shorter), random circuits in three call forms (in place, "
                    "inplace=False, applied twice), and end to end on the subexperiments of generate_cutting_experiments for small wire-cut "
                    "problems; every case is also simulated by an independent density-matrix oracle.",
-        level_note=STD_NOTE + "No axioms. 'Same statistics' is proved as equality of Herbrand wire-history terms (Common/Herbrand.v); that equal "
+        level_note=STD_NOTE + "For _consolidate_resets and _remove_resets_in_zero_state M1 is NOT needed any more: c12_sim_* prove, for every "
+                   "circuit of gates from the QSim set (x y z h s sdg sx sxdg cx cz swap ccx), measurements, resets and barriers on any number of "
+                   "qubits, that the list of positive-weight (classical register, exact state vector) branches is unchanged in the concrete "
+                   "state-vector semantics Model/ResetSim.v over Common/QSim.v (also valid for any other semantics satisfying the ten algebraic "
+                   "laws of Proofs/ResetSimP.v); that semantics is itself compared with the numpy simulator on ~1200 cases per run (chk_sim). "
+                   "M1 is still what carries the final-reset, pipeline, call-site and DAG-pass theorems to statistics. "
+                   "No axioms. 'Same statistics' is proved as equality of Herbrand wire-history terms (Common/Herbrand.v); that equal "
                    "terms give equal joint laws/conditional states under density-matrix semantics is modelling assumption M1, cross-checked "
                    "numerically on every generated case by the harness simulator (oracle contract), not proved.",
         assumptions=[
             "Model/ResetPasses.v is a hand-written model of the five passes; tied to /repo by the C12 correspondence (exact instruction lists "
             "for the list passes; per-wire sequences for the transpiler passes run through PassManager, whose circuit->DAG->circuit round trip "
             "may permute independent instructions) and by the regenerated facts (pipeline order, scan direction/early exits, DAG calls used)",
-            "M1: a compositional (density-matrix) semantics factors through the Herbrand denotation; initial and reset wires are the same term Zero",
+            "M1: a compositional (density-matrix) semantics factors through the Herbrand denotation; initial and reset wires are the same term Zero "
+            "- needed by c12_final_*, c12_pipeline_*, c12_site_*, c12_dag_* only; c12_sim_consolidate / c12_sim_zero / c12_sim_born_law are "
+            "proved directly in the concrete state-vector semantics and do not use it",
+            "the concrete semantics (Model/ResetSim.v: measure/reset = two unnormalised projected branches, Born weight = squared norm; gates "
+            "from Common/QSim.v) is hand-written; tied to the harness's numpy simulator by chk_sim; gates outside the QSim set (rotations) "
+            "are covered only under the abstract laws of Proofs/ResetSimP.v, not by an instance",
             "well-formedness hypothesis of the semantic theorems: qubit/clbit indices in range, Reset on exactly one qubit and no clbit, Measure one "
             "qubit and one clbit; conditional (c_if / control-flow) resets are outside the property's quantifier and outside the model",
             "OBSERVATION (outside the quantifier 'gates, mid-circuit measurements, resets and barriers'; not modelled, not checked, recorded in the "
